@@ -21,6 +21,15 @@
 (*   "ignore_seed": a seeded call draws from the global stream instead (F-16a)                   *)
 (*   "leak"       : a seeded call draws from its own stream but one sub-step draws from the      *)
 (*                  global stream (F-16b: seed not forwarded to randomized_svd)                  *)
+(*                                                                                              *)
+(* Refinement "object holding a seed".  Estimator objects (regressors, decomposition classes)    *)
+(* take random_state in their constructor and are then used for several fits.  The documented    *)
+(* meaning of an INTEGER random_state is a value, not a stream: every fit of the object -- and   *)
+(* of a clone built from its get_params() -- is CallInt(e, ObjSeed[o]) again: a fresh stream per *)
+(* fit, hence the same result every time (FitObj, CloneFit).  S.objs[o] is the stream the object *)
+(* WOULD hold if it materialised its seed into a generator at construction; under "spec" it is   *)
+(* never consulted.  Variant "obj_holds_stream" is that defect shape (seeded change C16-r2-2):   *)
+(* fits draw from, and advance, the object's stream; a clone shares it.                          *)
 EXTENDS Naturals, Sequences, FiniteSets, TLC
 
 CONSTANTS Seeds,      \* set of positive integers usable as seeds
@@ -29,10 +38,13 @@ CONSTANTS Seeds,      \* set of positive integers usable as seeds
           Entries,    \* set of entry-point classes
           Random,     \* [Entries -> BOOLEAN] does the entry make random choices
           Seedable,   \* subset of Entries: accepts a random_state
+          Objs,       \* set of estimator objects, each constructed with an INTEGER random_state
+          ObjSeed,    \* [Objs -> Seeds] that integer
+          ObjEntries, \* subset of Seedable: entry points that are classes (construct once, fit many times)
           MaxOps,     \* bound on the number of operations
-          Variant     \* "spec" | "ignore_seed" | "leak"
+          Variant     \* "spec" | "ignore_seed" | "leak" | "obj_holds_stream"
 
-VARIABLES S,      \* [global : stream, gens : [Gens -> stream]]
+VARIABLES S,      \* [global : stream, gens : [Gens -> stream], objs : [Objs -> stream]]
           calls,  \* history: set of records of every call made so far
           glog,   \* history: [Gens -> Seq([e, res])] what was called on each generator, in order
           nops    \* number of operations so far
@@ -47,22 +59,27 @@ Adv(st, tag) == [seed |-> st.seed, pos |-> Append(st.pos, tag)]      \* tag = <<
 NoStream     == [seed |-> 0, pos |-> <<>>]        \* also the (unknown, OS-entropy) initial global stream
 PTag         == <<"env", "perturb">>
 
-InitS == [global |-> NoStream, gens |-> [g \in Gens |-> Fresh(GenSeed[g])]]
+InitS == [global |-> NoStream, gens |-> [g \in Gens |-> Fresh(GenSeed[g])],
+          objs |-> [o \in Objs |-> Fresh(ObjSeed[o])]]
 
 StepPerturb(s)    == [s EXCEPT !.global = Adv(@, PTag)]
 StepReseed(s, sd) == [s EXCEPT !.global = Fresh(sd)]
 
 \* how a call is seeded
-ArgNone   == [k |-> "none", s |-> 0, g |-> "none"]
-ArgInt(s) == [k |-> "int",  s |-> s, g |-> "none"]
-ArgGen(g) == [k |-> "gen",  s |-> 0, g |-> g]
+ArgNone   == [k |-> "none", s |-> 0, g |-> "none", o |-> "none"]
+ArgInt(s) == [k |-> "int",  s |-> s, g |-> "none", o |-> "none"]
+ArgGen(g) == [k |-> "gen",  s |-> 0, g |-> g,      o |-> "none"]
+ArgObj(o) == [k |-> "int",  s |-> ObjSeed[o], g |-> "none", o |-> o]   \* a fit of object o IS a call with its integer seed
 
 \* the stream the documentation says the call draws from
 SpecSource(s, a) == CASE a.k = "none" -> s.global
                       [] a.k = "int"  -> Fresh(a.s)
                       [] a.k = "gen"  -> s.gens[a.g]
 \* the stream it does draw from under the modelled variant
-Source(s, a) == IF Variant = "ignore_seed" /\ a.k # "none" THEN s.global ELSE SpecSource(s, a)
+ObjStream(a) == Variant = "obj_holds_stream" /\ a.o # "none"
+Source(s, a) == IF Variant = "ignore_seed" /\ a.k # "none" THEN s.global
+                ELSE IF ObjStream(a) THEN s.objs[a.o]
+                ELSE SpecSource(s, a)
 Leaks(a)     == Variant = "leak" /\ a.k # "none"
 
 \* the returned value: a function of the entry, of how it was seeded and of the stream(s) drawn from
@@ -76,13 +93,14 @@ After(s, e, a) ==
     ELSE LET s1 == IF a.k = "none" \/ Variant = "ignore_seed"
                      THEN [s EXCEPT !.global = Adv(@, <<e, a.k>>)]
                    ELSE IF a.k = "gen" THEN [s EXCEPT !.gens[a.g] = Adv(@, <<e, "gen">>)]
+                   ELSE IF ObjStream(a) THEN [s EXCEPT !.objs[a.o] = Adv(@, <<e, "obj">>)]
                    ELSE s                          \* integer seed: the fresh stream is dropped
          IN IF Leaks(a) THEN [s1 EXCEPT !.global = Adv(@, <<e, "leak">>)] ELSE s1
 
 \* what identifies "the same seeding" of two calls
 Key(s, a) == SpecSource(s, a)
 
-CallRec(s, e, a) == [e |-> e, k |-> a.k, key |-> Key(s, a), res |-> Result(s, e, a),
+CallRec(s, e, a) == [e |-> e, k |-> a.k, o |-> a.o, key |-> Key(s, a), res |-> Result(s, e, a),
                      gpre |-> s.global, gpost |-> After(s, e, a).global]
 NextGlog(gl, s, e, a) == IF a.k = "gen" THEN [gl EXCEPT ![a.g] = Append(@, [e |-> e, res |-> Result(s, e, a)])] ELSE gl
 
@@ -104,12 +122,15 @@ Call(e, a) == /\ nops < MaxOps
 CallNone(e)   == e \in Entries /\ Call(e, ArgNone)
 CallInt(e, s) == e \in Seedable /\ Call(e, ArgInt(s))
 CallGen(e, g) == e \in Seedable /\ Call(e, ArgGen(g))
+FitObj(e, o)   == e \in ObjEntries /\ Call(e, ArgObj(o))      \* fit the SAME object again
+CloneFit(e, o) == e \in ObjEntries /\ o \in Objs /\ Call(e, ArgObj(o))   \* fit type(o)(**o.get_params())
 
 Next == \/ Perturb
         \/ \E s \in Seeds : Reseed(s)
         \/ \E e \in Entries : CallNone(e)
         \/ \E e \in Seedable, s \in Seeds : CallInt(e, s)
         \/ \E e \in Seedable, g \in Gens : CallGen(e, g)
+        \/ \E e \in ObjEntries, o \in Objs : FitObj(e, o) \/ CloneFit(e, o)
 
 Spec == Init /\ [][Next]_vars
 
@@ -130,6 +151,13 @@ SameSeedSameResult ==
 \* a call given an integer seed leaves the global stream untouched
 IntSeedLeavesGlobal ==
     [][(\E e \in Seedable, s \in Seeds : CallInt(e, s)) => S'.global = S.global]_vars
+
+\* the same for a fit of an object constructed with an integer seed, or of its clone
+ObjSeedLeavesGlobal ==
+    [][(\E e \in ObjEntries, o \in Objs : FitObj(e, o) \/ CloneFit(e, o)) => (S'.global = S.global /\ S'.gens = S.gens)]_vars
+
+\* under the specified semantics an object holds its integer seed, never a consumed stream
+ObjectHoldsSeed == \A o \in Objs : S.objs[o] = Fresh(ObjSeed[o])
 
 \* ... and every generator
 IntSeedLeavesGenerators ==
@@ -165,8 +193,13 @@ ReseedReproducible ==
 \* are exercised with a true antecedent)
 WitnessIntTwiceAcrossGlobal ==
     \E c1, c2 \in calls : c1.k = "int" /\ c2.k = "int" /\ c1.e = c2.e /\ c1.key = c2.key /\ c1.gpre # c2.gpre /\ Random[c1.e]
+                        /\ c1.o = "none" /\ c2.o = "none"
 WitnessTwinsUsed ==
     \E g, h \in Gens : g # h /\ GenSeed[g] = GenSeed[h] /\ Len(glog[g]) >= 2 /\ Len(glog[g]) = Len(glog[h]) /\ SameCalls(g, h, Len(glog[g]))
+WitnessObjRefit ==     \* the same object fitted at two different global states, and an ordinary call with the same seed
+    \E c1, c2, c3 \in calls : /\ c1.o # "none" /\ c2.o = c1.o /\ c1.e = c2.e /\ c1.gpre # c2.gpre
+                              /\ c3.o = "none" /\ c3.k = "int" /\ c3.e = c1.e /\ c3.key = c1.key
+NoWitnessObj   == ~WitnessObjRefit
 NoWitnessInt   == ~WitnessIntTwiceAcrossGlobal
 NoWitnessTwins == ~WitnessTwinsUsed
 =============================================================================
